@@ -1,5 +1,6 @@
 """C09 — nearest declaration wins, level eligibility, unit switches."""
 import itertools
+import json
 import sys
 
 import fw
@@ -43,7 +44,8 @@ def rand_tree(rng, depth, counter, nlayers):
 
 
 def mk(tree, argv, names, present, pats):
-    return {'tree': tree, 'argv': argv, 'layer_names': names, 'present': present, 'layer_pats': pats}
+    return {'tree': tree, 'argv': argv, 'layer_names': names, 'present': present, 'layer_pats': pats,
+            'dup_ids': (len(json.dumps(tree)) + len(argv)) % 3 == 0}
 
 
 def generate(rng, tier, rep):
